@@ -1,13 +1,18 @@
 package props
 
 import (
+	"fmt"
+	"sort"
 	"strings"
 	"testing"
 
 	"pgregory.net/rapid"
 
+	"github.com/tdakkota/docker-logql/verifharness/canon"
 	"github.com/tdakkota/docker-logql/verifharness/datagen"
+	"github.com/tdakkota/docker-logql/verifharness/dl"
 	"github.com/tdakkota/docker-logql/verifharness/evid"
+	"github.com/tdakkota/docker-logql/verifharness/fakedocker"
 	"github.com/tdakkota/docker-logql/verifharness/gen"
 	"github.com/tdakkota/docker-logql/verifharness/mockstore"
 	"github.com/tdakkota/docker-logql/verifharness/model"
@@ -125,4 +130,113 @@ func c09Gen(t *rapid.T) MetricCase {
 // TestC09 decides C09.
 func TestC09(t *testing.T) {
 	evid.Run(t, "C09", c09Gen, c09Check)
+}
+
+// C09DockerCase: C09 over the product's own storage, where the samples of a window come out of
+// the merge of several containers' logs.
+type C09DockerCase struct {
+	Ctrs    [][]int64 `json:"ctrs"` // per container: offsets of its lines from the base, odd milliseconds, ascending
+	RangeMs int64     `json:"range_ms"`
+	StartMs int64     `json:"start_ms"` // even milliseconds: no line lies on a window edge
+	StepMs  int64     `json:"step_ms"`
+	Steps   int       `json:"steps"`
+	Fn      string    `json:"fn"` // count_over_time | rate | bytes_over_time
+}
+
+func c09DockerCheck(c C09DockerCase) (r evid.Result) {
+	const base = int64(1700000000e9)
+	d := &fakedocker.Daemon{}
+	for i, offs := range c.Ctrs {
+		var lines []dl.Line
+		for j, o := range offs {
+			lines = append(lines, dl.Line{TS: base + o*1e6, Msg: fmt.Sprintf("c%d line %d", i, j)})
+		}
+		d.Containers = append(d.Containers, dl.Ctr(fmt.Sprintf("id%d", i), fmt.Sprintf("c%d", i), nil, lines))
+	}
+	query := fmt.Sprintf("sum by (container) (%s({}[%dms]))", c.Fn, c.RangeMs)
+	start, step := base+c.StartMs*1e6, c.StepMs*1e6
+	end := start + int64(c.Steps)*step
+	want := map[string]map[int64]float64{}
+	ended := map[int]bool{}
+	for k := 0; k <= c.Steps; k++ {
+		T := start + int64(k)*step
+		for i, offs := range c.Ctrs {
+			n, bytes := 0, 0
+			for j, o := range offs {
+				if ts := base + o*1e6; ts >= T-c.RangeMs*1e6 && ts <= T {
+					n++
+					bytes += len(fmt.Sprintf("c%d line %d", i, j))
+				}
+			}
+			if len(offs) > 0 && base+offs[len(offs)-1]*1e6 < T {
+				ended[i] = true
+			}
+			if n == 0 {
+				continue
+			}
+			key := canon.LabelKey(map[string]string{"container": fmt.Sprintf("c%d", i)})
+			if want[key] == nil {
+				want[key] = map[int64]float64{}
+			}
+			switch c.Fn {
+			case "count_over_time":
+				want[key][T/1e6] = float64(n)
+			case "rate":
+				want[key][T/1e6] = float64(n) / (float64(c.RangeMs) / 1000)
+			default:
+				want[key][T/1e6] = float64(bytes)
+			}
+		}
+	}
+	r.Class(true, fmt.Sprintf("containers=%d", len(c.Ctrs)))
+	r.Class(len(ended) > 0 && len(ended) < len(c.Ctrs), "some-log-ends-inside-the-grid")
+	r.NonTrivial = len(c.Ctrs) >= 3 && len(want) >= 2
+	data, err := dl.Eval(d, query, dl.Params{Start: start, End: end, Step: step, Limit: -1})
+	d.Done()
+	if err != nil {
+		r.Violation = evid.Viol("C09/docker-eval-error", "query %s failed: %v", query, err)
+		return r
+	}
+	m, err := canon.MetricOf(data)
+	if err != nil {
+		r.Violation = evid.Viol("C09/docker-result", "%v", err)
+		return r
+	}
+	got, _, dups := canon.PointMap(m)
+	if len(dups) > 0 {
+		r.Violation = evid.Viol("C09/docker-duplicate", "query %s: %v", query, dups)
+		return r
+	}
+	if diff := canon.DiffPointMaps(got, want); diff != "" {
+		r.Violation = evid.Viol("C09/docker-wrong-value", "query %s over %d containers (line offsets in ms %v), grid start=+%dms step=%dms steps=%d: %s", query, len(c.Ctrs), c.Ctrs, c.StartMs, c.StepMs, c.Steps, diff)
+	}
+	return r
+}
+
+func c09DockerGen(t *rapid.T) C09DockerCase {
+	var c C09DockerCase
+	n := rapid.SampledFrom([]int{1, 2, 3, 3, 4, 4, 5, 6}).Draw(t, "containers")
+	for i := 0; i < n; i++ {
+		m := rapid.IntRange(0, 6).Draw(t, "lines")
+		// some logs are short and end early, others go on
+		span := rapid.SampledFrom([]int64{10, 40, 200}).Draw(t, "span")
+		offs := make([]int64, m)
+		for j := range offs {
+			offs[j] = rapid.Int64Range(0, span).Draw(t, "off")*2 + 1
+		}
+		sort.Slice(offs, func(a, b int) bool { return offs[a] < offs[b] })
+		c.Ctrs = append(c.Ctrs, offs)
+	}
+	c.RangeMs = rapid.SampledFrom([]int64{2, 4, 10, 20, 100, 1000}).Draw(t, "range") // even
+	c.StartMs = rapid.Int64Range(-5, 60).Draw(t, "start") * 2
+	c.StepMs = rapid.SampledFrom([]int64{2, 4, 6, 10, 20, 50, 100}).Draw(t, "step")
+	c.Steps = rapid.IntRange(0, 40).Draw(t, "steps")
+	c.Fn = rapid.SampledFrom([]string{"count_over_time", "count_over_time", "rate", "bytes_over_time"}).Draw(t, "fn")
+	return c
+}
+
+// TestC09Docker decides C09's first sentence over the Docker backend: the windows are cut out of
+// the merged logs of several containers.
+func TestC09Docker(t *testing.T) {
+	evid.Run(t, "C09", c09DockerGen, c09DockerCheck)
 }
